@@ -6,6 +6,8 @@ cd "$(dirname "$0")/.."
 git -C /repo diff --quiet || { echo "repo working tree is not clean"; exit 2; }
 git -C /repo apply "$P" || { echo "patch does not apply"; exit 2; }
 trap 'git -C /repo checkout -- . ; git -C /repo clean -fdq -- bxdecay0 programs extensions resources' EXIT
+# the evidence of a run against a seeded change must never replace the evidence of the real tree
+VERIF_EVIDENCE_DIR=$(mktemp -d /tmp/mutant_evidence.XXXXXX); export VERIF_EVIDENCE_DIR
 for c in "$@"; do
   n=$(echo $c | tr -d C)
   python3-vt checks/c$n.py --tier $TIER > /tmp/mutant_$c.log 2>&1
@@ -13,3 +15,4 @@ for c in "$@"; do
   echo "== $c rc=$rc violations=$(grep -c '^VIOLATION' /tmp/mutant_$c.log)"
   grep -A1 '^VIOLATION' /tmp/mutant_$c.log | grep 'key=' | head -4 | cut -c1-260
 done
+rm -rf "$VERIF_EVIDENCE_DIR"
